@@ -3,11 +3,13 @@
 Proof (kernel level): lean/CobyqaVerif/Props/C15.lean.  The loops of the five solvers are not modelled; they are
 covered by calling the REAL solvers over the input space of the property and evaluating the admissibility
 predicate (Model/StepSpec.lean) on the returned step in exact rational arithmetic in Lean."""
+import os
 import numpy as np
 from common import driver, proof_stage
 import subgen
 
-MODULES = ["CobyqaVerif.Props.C15", "CobyqaVerif.Props.C15Loop"]
+MODULES = ["CobyqaVerif.Props.C15", "CobyqaVerif.Props.C15Loop", "CobyqaVerif.Props.C15Improve", "CobyqaVerif.Props.C15ImproveFast",
+           "CobyqaVerif.Props.C15ImproveReal"]
 LEVEL = "proof"
 OWN = ("bounds", "radius", "inequality", "null-space")
 
@@ -35,7 +37,7 @@ def run_calls(chk, rng, replay, n_quick, n_thorough):
     return cases, out, ans, crashed
 
 
-def tcg_correspondence(rng, n_gen, nmax=4):
+def tcg_correspondence(rng, n_gen, nmax=4, whole=False):
     """Tie of lean/CobyqaVerif/Alg/Tcg.lean (the loop the theorems of Props/C15Loop.lean are about) to the code: the
     model is run in exact rational arithmetic (DriverAlg `tcg`) on the inputs given to the real
     tangential_byrd_omojokun with improve_tcg=False; the two steps must agree to 1e-6 relative.  Exact rational
@@ -58,31 +60,62 @@ def tcg_correspondence(rng, n_gen, nmax=4):
     def line(c):
         n = c["n"]
         xl, xu = np.minimum(c["xl"], 0.0), np.maximum(c["xu"], 0.0)
-        return f"tcg {n} {4 * n + 8} | {rl(c['g'])} ; {rl(c['H'].ravel())} ; {ol(xl)} ; {ol(xu)} ; {exact.rs(Fr(float(c['delta'])))}"
+        head = f"tcg2 {n} {4 * n + 8} {n + 2} 1" if whole else f"tcg {n} {4 * n + 8}"
+        return f"{head} | {rl(c['g'])} ; {rl(c['H'].ravel())} ; {ol(xl)} ; {ol(xu)} ; {exact.rs(Fr(float(c['delta'])))}"
 
-    def run(ls, to):
-        p = subprocess.Popen(["lake", "env", "lean", "--run", "DriverAlg.lean"], cwd=LEAN, stdin=subprocess.PIPE, stdout=subprocess.PIPE,
-                             stderr=subprocess.DEVNULL, text=True, start_new_session=True)
-        try:
-            out, _ = p.communicate("\n".join(ls) + "\n", timeout=to)
-        except subprocess.TimeoutExpired:
-            import os
-            import signal
-            os.killpg(p.pid, signal.SIGKILL)
-            p.wait()
-            return None
-        r = [l for l in out.splitlines() if l.startswith(("ok", "bad", "fail"))]
-        return r if len(r) == len(ls) else None
-    ans = []
-    for i in range(0, len(cases), 40):
-        chunk = cases[i:i + 40]
-        r = run([line(c) for c in chunk], 60)
-        if r is None:
-            r = []
-            for c in chunk:
-                x = run([line(c)], 12)
-                r.append(x[0] if x else None)
-        ans += r
+    def stream(ls, per_line):
+        """one driver process answers the lines in order; a line that is not answered within `per_line` seconds is
+        given up (None), the process is killed and a new one takes the remaining lines"""
+        import queue
+        import signal
+        import threading
+        out = [None] * len(ls)
+        k = 0
+        while k < len(ls):
+            p = subprocess.Popen(["lake", "env", "lean", "--run", "DriverAlg.lean"], cwd=LEAN, stdin=subprocess.PIPE, stdout=subprocess.PIPE,
+                                 stderr=subprocess.DEVNULL, text=True, start_new_session=True)
+            q = queue.Queue()
+
+            def reader(pipe=p.stdout, q=q):
+                for l in pipe:
+                    if l.startswith(("ok", "bad", "fail")):
+                        q.put(l.strip())
+                q.put(None)
+            threading.Thread(target=reader, daemon=True).start()
+            try:
+                p.stdin.write("\n".join(ls[k:]) + "\n")
+                p.stdin.close()
+            except BrokenPipeError:
+                pass
+            first = True
+            while k < len(ls):
+                try:
+                    a = q.get(timeout=per_line + (30 if first else 0))      # the first answer also pays for the start-up
+                except queue.Empty:
+                    a = "slow"
+                first = False
+                if a is None or a == "slow":
+                    try:
+                        os.killpg(p.pid, signal.SIGKILL)
+                    except ProcessLookupError:
+                        pass
+                    p.wait()
+                    k += 1          # this line is given up
+                    break
+                out[k] = a
+                k += 1
+            else:
+                p.wait()
+        return out
+    from concurrent.futures import ThreadPoolExecutor
+    lines = [line(c) for c in cases]
+    nw = min(8, max(1, (os.cpu_count() or 2) // 2))
+    parts = [list(range(w, len(lines), nw)) for w in range(nw)]
+    ans = [None] * len(lines)
+    with ThreadPoolExecutor(max_workers=nw) as ex:
+        for idx, r in zip(parts, ex.map(lambda ix: stream([lines[t] for t in ix], 12), parts)):
+            for t, a in zip(idx, r):
+                ans[t] = a
     agree, skipped, mism = 0, 0, []
     for c, a in zip(cases, ans):
         if a is None:
@@ -90,7 +123,7 @@ def tcg_correspondence(rng, n_gen, nmax=4):
             continue
         with warnings.catch_warnings(), np.errstate(all="ignore"):
             warnings.simplefilter("ignore")
-            s = S.tangential_byrd_omojokun(c["g"], lambda v: c["H"] @ v, c["xl"].copy(), c["xu"].copy(), c["delta"], False, improve_tcg=False)
+            s = S.tangential_byrd_omojokun(c["g"], lambda v: c["H"] @ v, c["xl"].copy(), c["xu"].copy(), c["delta"], False, improve_tcg=whole)
         if not a.startswith("ok"):
             mism.append((c, "driver answered " + a[:40]))
             continue
@@ -100,7 +133,9 @@ def tcg_correspondence(rng, n_gen, nmax=4):
             agree += 1
         else:
             mism.append((c, f"exact model step {m.tolist()} vs implementation {np.asarray(s).tolist()}"))
-    return {"cases": len(cases), "agree": agree, "skipped_too_expensive": skipped, "mismatches": len(mism)}, mism
+    boundary = sum(1 for a in ans if a is not None and a.startswith("ok1"))
+    return {"cases": len(cases), "agree": agree, "skipped_too_expensive": skipped, "mismatches": len(mism),
+            **({"first_phase_ended_on_the_boundary": boundary} if whole else {})}, mism
 
 
 def stats(out):
@@ -138,7 +173,11 @@ def run(chk, rng, replay=None):
     })
     tstat, tmism = tcg_correspondence(rng, 150 if chk.tier == "quick" else 3000) if replay is None else ({}, [])
     chk.coverage["loop_model_correspondence_tangential_first_phase"] = tstat
-    chk.assumptions += ["kernel theorems are exact-arithmetic; the working-set / QR / rotation loops of the solvers are not modelled and are covered by the sampled calls only",
+    # the solver as a whole (both phases, improve_tcg=True) against Alg/TcgImprove.lean `tcgFull`
+    wstat, wmism = tcg_correspondence(rng, 150 if chk.tier == "quick" else 3000, whole=True) if replay is None else ({}, [])
+    chk.coverage["whole_solver_correspondence_tangential_both_phases"] = wstat
+    tmism = tmism + wmism
+    chk.assumptions += ["kernel theorems are exact-arithmetic; the working-set / QR loops of the constrained solvers are not modelled and are covered by the sampled calls only",
                         "allowances for the linear constraints are proportional to eps n (|A||s| + |b|) (factor 1e3); bounds are checked exactly, the radius with relative slack 1e-12"]
     for c, what in crashed[:3]:
         chk.violation({"property": "C15", "kind": "spec-fails-on-implementation", "case": subgen.case_json(c), "failure": "the solver did not return a finite step: " + what,
@@ -149,7 +188,7 @@ def run(chk, rng, replay=None):
                        "signature": {"failure": a[5:], "solver": c["kind"]}})
     if not fails and not crashed and tmism:
         c, what = tmism[0]
-        chk.violation({"property": "C15", "kind": "proof-or-correspondence-broken", "correspondence": "Alg/Tcg.lean (exact) vs tangential_byrd_omojokun(improve_tcg=False)",
+        chk.violation({"property": "C15", "kind": "proof-or-correspondence-broken", "correspondence": "Alg/Tcg.lean, Alg/TcgImprove.lean (exact) vs tangential_byrd_omojokun(improve_tcg=False / True)",
                        "case": subgen.case_json(c), "difference": what, "mismatches": len(tmism)}, no_input=True)
     if not fails and not crashed and (not ok or other):
         rep = {"property": "C15", "kind": "proof-or-correspondence-broken", "broken": info.get("problems") if not ok else [a for _, _, a in other[:3]]}
